@@ -118,7 +118,9 @@ func runC34(c *Ctx) {
 			send := f.CallTo(c.FuncObj("internal/cluster", "cluster.sendEventLocked"))
 			dup := f.CondEdges(exprMatch(contains), true)
 			w := f.AfterEdgesMayReach(dup, nil, nil, send)
-			c.Check(w == nil && len(dup) > 0, pr.fn+"/duplicate⇏send", "a node already in the filter produces no second event", c.P.Pos(fn.Decl.Pos()), f.describe(w))
+			fresh := f.CondEdges(exprMatch(contains), false)
+			wF := f.search(searchSpec{avoidEdges: fresh, target: send})
+			c.Check(w == nil && len(dup) > 0 && wF == nil && len(fresh) > 0, pr.fn+"/duplicate⇏send", "the event is sent only over the edge on which the filter did not contain the node (a node already in the filter produces no second event)", c.P.Pos(fn.Decl.Pos()), f.describe(w)+f.describe(wF))
 			w = f.MustPrecede(add, nil, send)
 			w2 := f.MustPrecede(contains, nil, add)
 			c.Check(w == nil && w2 == nil && len(f.Find(send)) == 1, pr.fn+"/contains≺add≺send", "the filter is tested, then updated, then the event is sent", c.P.Pos(fn.Decl.Pos()), f.describe(w)+f.describe(w2))
